@@ -468,3 +468,22 @@ def decrypt(value, key, sender_pub=None, pick=None, strict_zip=False):
         raise
     except Exception as e:  # noqa: BLE001
         raise RefReject(f"malformed:{type(e).__name__}:{e}")
+
+
+import copy  # noqa: E402
+
+
+def rewrite_protected(value, upd):
+    """The same token with members of its protected header replaced (compact octets or JSON dict)."""
+    if isinstance(value, (bytes, str)):
+        raw = value if isinstance(value, bytes) else value.encode()
+        parts = raw.split(b".")
+        hdr = json.loads(b64u_dec(parts[0]))
+        hdr.update(upd)
+        parts[0] = b64u(json.dumps(hdr, separators=(",", ":")).encode())
+        return b".".join(parts)
+    v = copy.deepcopy(value)
+    hdr = json.loads(b64u_dec(v["protected"])) if v.get("protected") else {}
+    hdr.update(upd)
+    v["protected"] = b64u(json.dumps(hdr, separators=(",", ":")).encode()).decode()
+    return v
